@@ -12,6 +12,13 @@ from . import sym
 from .arr import SymArray, has_sym, plain, concrete_or_none, wrap
 
 
+class _NodeView(list):
+    """iterable and callable, like networkx's NodeView"""
+
+    def __call__(self, *a, **k):
+        return self
+
+
 class SymGraph:
     """Stand-in for a networkx.Graph whose adjacency is symbolic (nodes 0..n-1)."""
 
@@ -25,8 +32,18 @@ class SymGraph:
     def __len__(self):
         return self.n
 
+    @property
     def nodes(self):
-        return list(range(self.n))
+        return _NodeView(range(self.n))
+
+    def __iter__(self):
+        return iter(range(self.n))
+
+    def __contains__(self, v):
+        return isinstance(v, int) and 0 <= v < self.n
+
+    def number_of_edges(self):
+        raise sym.Unsupported("number_of_edges of a symbolic graph")
 
     def to_real(self):
         """fork on every edge bit, return a real nx.Graph"""
@@ -60,7 +77,13 @@ class NxProxy:
 
     def to_numpy_array(self, g, nodelist=None, **k):
         if isinstance(g, SymGraph):
-            return g.adj_matrix.copy()
+            a = g.adj_matrix.copy()
+            if nodelist is not None:
+                order = [int(v) for v in nodelist]
+                if sorted(order) != list(range(g.n)):
+                    raise sym.Unsupported("to_numpy_array(SymGraph) with a nodelist that is not a permutation of the nodes")
+                a = a[np.ix_(order, order)]  # row/column i of the result is node nodelist[i], as in networkx
+            return a
         return nx.to_numpy_array(g, nodelist=nodelist, **k)
 
     def from_numpy_array(self, a, *args, **k):
